@@ -60,9 +60,11 @@ FAULT_KINDS = ("crash", "enospc", "eio", "eacces", "emfile", "enoent", "intr")
 
 # which errno-style fault makes sense at which kind of call
 APPLICABLE = {
-    "enospc": {"write", "close-flush", "mkstemp", "pyc"},
-    "eio": {"open-read", "load-read", "write", "close-flush", "pyc"},
-    "eacces": {"rename", "remove", "open-read", "open-write", "mkstemp"},
+    "enospc": {"write", "close-flush", "mkstemp", "pyc", "pyc-write"},
+    "eio": {"open-read", "load-read", "write", "close-flush", "pyc",
+            "pyc-write"},
+    "eacces": {"rename", "remove", "open-read", "open-write", "mkstemp",
+               "pyc-open", "pyc-replace"},
     "emfile": {"mkstemp", "open-read", "open-write", "fdopen"},
     "enoent": {"getmtime", "open-read", "exists"},
 }
@@ -643,7 +645,46 @@ def install() -> None:
         f = w.fs_event("pyc", file)
         if f:
             _raise(f, file)
-        return real.pycompile(file, *a, **k)
+        if not getattr(w, "pyc_steps", False):
+            return real.pycompile(file, *a, **k)
+        # What py_compile does, step by step (importlib's _write_atomic):
+        # compile; create '<cfile>.<id(path)>' with O_EXCL; write; replace.
+        # The temporary name is unique within one process only: workers
+        # forked from one parent hold equal object addresses, so siblings
+        # that store the same module at the same time use the same name
+        # (w.pyc_group: the processes of one concurrent phase).
+        import importlib.util
+        cfile = importlib.util.cache_from_source(os.fspath(file))
+        priv = cfile + ".harness-%s" % w.current_proc().name
+        os.makedirs(os.path.dirname(cfile), exist_ok=True)
+        real.pycompile(file, cfile=priv, doraise=False)
+        with real.open(priv, "rb") as fh:
+            data = fh.read()
+        real.remove(priv)
+        tmp = "%s.%d" % (cfile, 140000000000000 + getattr(w, "pyc_group", 0))
+        f = w.fs_event("pyc-open", tmp)
+        if f:
+            _raise(f, tmp)
+        fd = real.os_open(tmp, os.O_EXCL | os.O_CREAT | os.O_WRONLY, 0o644)
+        try:
+            try:
+                f = w.fs_event("pyc-write", tmp)
+                if f:
+                    _raise(f, tmp)
+                real.os_write(fd, data)
+            finally:
+                real.os_close(fd)
+            f = w.fs_event("pyc-replace", cfile)
+            if f:
+                _raise(f, cfile)
+            real.replace(tmp, cfile)
+        except OSError:
+            try:
+                real.unlink(tmp)
+            except OSError:
+                pass
+            raise
+        return cfile
 
     def open_(file, mode="r", *a, **k):
         if isinstance(file, int):
